@@ -415,17 +415,25 @@ class Spec(object):
         return any(x in CLASSATTR or x.endswith("\n") for x in names)
 
     # ---- generators
+    @staticmethod
+    def val(rng):
+        """field / deck values: mostly distinct integers, sometimes None or another falsy value (an existing field whose
+        value is None is still an existing field; a falsy deck element is still an element)"""
+        if rng.random() < 0.8:
+            return rng.randrange(100)
+        return rng.choice([None, None, 0, "", False, 0.0])
+
     def pairs(self, rng, nmax=3):
         out = []
         for _ in range(rng.randint(0, nmax)):
             name = rng.choice(GOOD) if rng.random() < 0.75 else rng.choice(NAMES)
-            out.append([name, rng.randrange(100)])
+            out.append([name, self.val(rng)])
         return out
 
     def random_op(self, rng):
         tgt = "s" if rng.random() < 0.6 else "n"
         name = rng.choice(GOOD) if rng.random() < 0.75 else rng.choice(NAMES)
-        v = rng.randrange(100)
+        v = self.val(rng)
         n = rng.choice(["stamp", "advance", "stamp", "value", "value", "update", "update", "change", "create", "create",
                         "setitem", "getitem", "delitem", "in", "has_key", "get", "fetch", "pop", "popd", "popitem",
                         "setdefault", "insert", "clear", "stampNow", "sift", "copy", "ctor", "push", "dpush", "pull",
@@ -450,13 +458,13 @@ class Spec(object):
             return [n, tgt, None if rng.random() < 0.3 else [rng.choice(GOOD) for _ in range(rng.randint(0, 2))]]
         if n == "ctor":
             return [n, tgt, rng.choice([None, v]), self.pairs(rng, 2), rng.choice([None, None, 3.0]),
-                    rng.choice([None, [v, v + 1]])]
+                    rng.choice([None, [v, rng.randrange(100)]])]
         if n in ("push", "dpush"):
             return [n, tgt, v]
         if n == "gulp":
             return [n, tgt, rng.choice([None, v])]
         if n == "extend":
-            return [n, tgt, [v, v + 1]]
+            return [n, tgt, [v, rng.randrange(100)]]
         raise ValueError(n)
 
     def core_alphabet(self):
@@ -466,7 +474,8 @@ class Spec(object):
                 ["create", "s", "pairs", [["value", 9]]], ["setitem", "s", "north", 10], ["delitem", "s", "value"],
                 ["popitem", "s"], ["setdefault", "s", "x1", 11], ["insert", "s", 0, "north", 12], ["stampNow", "s"],
                 ["update", "s", "kw", [["_x", 13]]], ["update", "s", "pairs", [["north", 14], ["9x", 15]]],
-                ["gulp", "s", 16], ["gulp", "s", None], ["spew", "s"], ["pull", "s"]]
+                ["gulp", "s", 16], ["gulp", "s", None], ["spew", "s"], ["pull", "s"],
+                ["update", "s", "kw", [["north", None]]], ["create", "s", "dict", [["north", 17]]], ["gulp", "s", 0]]
 
     def full_alphabet(self):
         al = [["stamp", 1.0], ["stamp", 2.5], ["advance", 0.5]]
